@@ -166,9 +166,9 @@ def run_inprocess(data_text: str, pool=None, **argkw) -> Rec:
         rec.batches.append({'rows': rows, 'triplets': [(t[0], t[1], float(t[2])) for t in out[0].triplet_scores]})
         return out
 
-    def ckw(importances_batch):
+    def ckw(*a, **k):                   # observed only; the signature is the implementation's business
         rec.ckpt_calls += 1
-        return orig_ck(importances_batch)
+        return orig_ck(*a, **k)
 
     def est(**kw):
         kw['logger'] = cap
